@@ -49,6 +49,19 @@ CLAIMED = {
              'soundness are not decided.',
         note=STATIC_NOTE,
         technique='static analysis: HIR effect-schedule extraction + normal-form comparison; MIR must-call'),
+    'C14': dict(
+        text='Static rules for the KZG multi-opening: three-way transcript schedule duality (multi_open / multi_prepare / in-circuit multi_prepare), '
+             'duplicate-query refusal present in both copies of construct_intermediate_sets and propagated by all callers, and liveness of every value '
+             'the verifier reads. Structural necessary conditions; the opening algebra is not decided.',
+        note=STATIC_NOTE,
+        technique='static analysis: HIR effect-schedule duality + guard/propagation rules + liveness'),
+    'C17': dict(
+        text='Byte-stream schedule duality by static extraction for 13 write/read pairs (widths, endianness, group/raw encodings, bincode-instantiated types, '
+             'loops paired with their length prefixes, per-format case split), determinism lints over everything reachable from key generation '
+             '(RandomState iteration, randomness, time; each hash iteration triaged for order-insensitivity), pinned views free of hash containers, '
+             'proving-key rebuild call-set agreement, downsize recomputation. Byte-identity across thread counts is not decided.',
+        note=STATIC_NOTE,
+        technique='static analysis: HIR effect-schedule duality (io vocabulary) + call-graph determinism lints'),
 }
 
 NOT_APPLICABLE = {
